@@ -241,7 +241,8 @@ def encode_call(q, name, args, kw):
         _identity_guard(q, a, extra=[q._insert_table])
         out = []
         for x in a:
-            agg = bool(x.is_aggregate) if isinstance(x, (T.Function, T.ArithmeticExpression)) else False
+            # the flag the method reads: `term.is_aggregate` of any Term that is not a plain Field / a string
+            agg = bool(x.is_aggregate) if isinstance(x, T.Term) and not isinstance(x, T.Field) else False
             out.append({"a": d_arg(x), "agg": agg})
         return {"m": "returning", "args": out}
     if name == "modifier":
